@@ -1,0 +1,16 @@
+//go:build verif
+
+package device
+
+// VerifRouteOwner reports which peer the allowed-IPs table returns for ip
+// (4 or 16 bytes), whether or not that peer is still in the peer map.
+// Add-only accessor for the verification harness (property C15).
+func (device *Device) VerifRouteOwner(ip []byte) (pk NoisePublicKey, ok bool) {
+	peer := device.allowedips.Lookup(ip)
+	if peer == nil {
+		return pk, false
+	}
+	peer.handshake.mutex.RLock()
+	defer peer.handshake.mutex.RUnlock()
+	return peer.handshake.remoteStatic, true
+}
